@@ -7,7 +7,7 @@ import ISnap.Model.Value
   EVENT ::= (begin) | (stmt ((SITE OLD)…) EVENT) | (snap SITE OLD) | (op SITE KEY OP VAL CLONEOK) | (touch SITE VAL)
   OLD   ::= none | (leaf VAL CANON) | (coll (VAL CANON)…) | (dict (VAL VAL CANON)…)
   KEY   ::= - | VAL          OP ::= eq | ge | le | in
-  VAL   ::= n | (b 0|1) | (i INT) | (s CP…)
+  VAL   ::= n | (b 0|1) | (i INT) | (s CP…) | (ps BITMASK)      (ps: a set of small naturals, ordered by inclusion)
   answer: (out (res R…) (counters MISSING INCORRECT) (site SITE CATS FINAL)…)
 -/
 namespace ISnap.SiteCmd
@@ -26,6 +26,14 @@ def valS : Atom → Sexp
   | .int i => .list [.atom "i", ofInt i]
   | .str cps => .list (.atom "s" :: cps.map ofNat)
 
+def dval? : Sexp → Option DVal
+  | .list [.atom "ps", b] => (nat? b).map .pset
+  | e => (val? e).map .atom
+
+def dvalS : DVal → Sexp
+  | .atom a => valS a
+  | .pset b => .list [.atom "ps", ofNat b]
+
 def cats? (xs : List Sexp) : Option Flags :=
   xs.foldlM (fun f x => match x with
     | .atom "create" => some { f with create := true }
@@ -36,17 +44,17 @@ def cats? (xs : List Sexp) : Option Flags :=
 
 def catsS (f : Flags) : Sexp := .list (f.toList.map (fun c => .atom c.name))
 
-def old? : Sexp → Option (Option (OldArg Atom))
+def old? : Sexp → Option (Option (OldArg DVal))
   | .atom "none" => some none
-  | .list [.atom "leaf", v, c] => do some (some (.leaf (← val? v) (← bool? c)))
+  | .list [.atom "leaf", v, c] => do some (some (.leaf (← dval? v) (← bool? c)))
   | .list (.atom "coll" :: es) => do
     let es ← es.mapM (fun e => match e with
-      | .list [v, c] => do some ((← val? v), (← bool? c))
+      | .list [v, c] => do some ((← dval? v), (← bool? c))
       | _ => none)
     some (some (.coll es))
   | .list (.atom "dict" :: es) => do
     let es ← es.mapM (fun e => match e with
-      | .list [k, v, c] => do some ((← val? k), (← val? v), (← bool? c))
+      | .list [k, v, c] => do some ((← dval? k), (← dval? v), (← bool? c))
       | _ => none)
     some (some (.dict es))
   | _ => none
@@ -55,7 +63,7 @@ def op? : Sexp → Option Op
   | .atom "eq" => some .eq | .atom "ge" => some .ge | .atom "le" => some .le
   | .atom "in" => some .isin | _ => none
 
-partial def event? : Sexp → Option (Event Atom)
+partial def event? : Sexp → Option (Event DVal)
   | .list [.atom "begin"] => some .begin
   | .list [.atom "stmt", .list pre, body] => do
     let pre ← pre.mapM (fun e => match e with
@@ -64,9 +72,9 @@ partial def event? : Sexp → Option (Event Atom)
     some (.stmt pre (← event? body))
   | .list [.atom "snap", k, o] => do some (.snap (← nat? k) (← old? o))
   | .list [.atom "op", k, key, op, x, c] => do
-    let key ← (match key with | .atom "-" => some none | e => (val? e).map some)
-    some (.op (← nat? k) key (← op? op) (← val? x) (← bool? c))
-  | .list [.atom "touch", k, key] => do some (.touch (← nat? k) (← val? key))
+    let key ← (match key with | .atom "-" => some none | e => (dval? e).map some)
+    some (.op (← nat? k) key (← op? op) (← dval? x) (← bool? c))
+  | .list [.atom "touch", k, key] => do some (.touch (← nat? k) (← dval? key))
   | _ => none
 
 def resS : Res → Sexp
@@ -75,11 +83,11 @@ def resS : Res → Sexp
   | .usageError => .atom "UsageError"
   | .unsupported => .atom "unsupported"
 
-partial def finalS : Final Atom → Sexp
+partial def finalS : Final DVal → Sexp
   | .noArg => .atom "noarg"
-  | .one v => valS v
-  | .many vs => .list (.atom "l" :: vs.map valS)
-  | .entries kvs => .list (.atom "d" :: kvs.map (fun kv => .list [valS kv.1, finalS kv.2]))
+  | .one v => dvalS v
+  | .many vs => .list (.atom "l" :: vs.map dvalS)
+  | .entries kvs => .list (.atom "d" :: kvs.map (fun kv => .list [dvalS kv.1, finalS kv.2]))
 
 def run (args : List Sexp) : Option Sexp := do
   match args with
@@ -87,11 +95,11 @@ def run (args : List Sexp) : Option Sexp := do
     let f ← cats? fs
     let ap ← cats? aps
     let evs ← evs.mapM event?
-    let (t, rs) := Table.run Atom.ops f {} evs
+    let (t, rs) := Table.run DVal.ops f {} evs
     let sites := t.sites.map (fun (k, s) =>
       Sexp.list [.atom "site", ofNat k,
-        (match s.cats Atom.ops with | some c => catsS c | none => .atom "crash"),
-        finalS (s.final Atom.ops ap)])
+        (match s.cats DVal.ops with | some c => catsS c | none => .atom "crash"),
+        finalS (s.final DVal.ops ap)])
     some (.list ([.atom "out", .list (.atom "res" :: rs.map resS),
       .list [.atom "counters", ofNat t.missing, ofNat t.incorrect]] ++ sites))
   | _ => none
